@@ -371,8 +371,21 @@ def history_case(ctx, h, nsteps, lines, reals):
                 if not len(c.eOperations):
                     continue
                 op = rng.choice(list(c.eOperations))
-                op.eParameters.append(E.EParameter(f'q{len(op.eParameters)}', E.EInt, required=True))
-                log.append(f'parameter added to {c.name}.{op.name}')
+                if len(op.eParameters) and rng.random() < .5:
+                    # ... or a parameter of a live operation changes sides: the last required one becomes optional, or the
+                    # first optional one required (the order required-then-optional is kept)
+                    req = [p for p in op.eParameters if p.required]
+                    opt = [p for p in op.eParameters if not p.required]
+                    if req and (not opt or rng.random() < .5):
+                        req[-1].required = False
+                        log.append(f'last required parameter of {c.name}.{op.name} made optional')
+                    else:
+                        opt[0].required = True
+                        log.append(f'first optional parameter of {c.name}.{op.name} made required')
+                else:
+                    op.eParameters.insert(len([p for p in op.eParameters if p.required]),
+                                          E.EParameter(f'q{len(op.eParameters)}', E.EInt, required=True))
+                    log.append(f'parameter added to {c.name}.{op.name}')
             else:
                 if not len(c.eOperations):
                     continue
@@ -404,7 +417,23 @@ def history_case(ctx, h, nsteps, lines, reals):
                     break
                 if has:
                     kcls, op = declared[mn]
-                    nreq = len(op.eParameters)
+                    nreq = len([p for p in op.eParameters if p.required])
+                    if nreq and not any((classes.index(kk), mn) in attached for kk in chain):
+                        # (a behaviour attached by the history takes `*a`: its arity is its own)
+                        # one argument short of the required ones: refused as any Python method refuses it
+                        try:
+                            getattr(o, mn)(*([1] * (nreq - 1)))
+                            short = 'accepted'
+                        except TypeError:
+                            short = None
+                        except NotImplementedError:
+                            short = 'accepted'
+                        except Exception:
+                            short = None
+                        if short:
+                            problem = ('call-arity', f'{oc.name} instance .{mn}() accepted {nreq - 1} arguments where {nreq} are required '
+                                       f'(parameters: {[(p.name, bool(p.required)) for p in op.eParameters]})')
+                            break
                     owners = [classes.index(kk) for kk in chain if (classes.index(kk), mn) in attached
                               and any((x.name + '_' if keyword.iskeyword(x.name) else x.name) == mn for x in kk.eOperations)]
                     try:
